@@ -324,6 +324,104 @@ var ops = []op{
 		s.t.Z = s.t.Y
 		return fmt.Sprintf("%s binds the same name twice in %s", s.t.Op, s.where)
 	}},
+	{"shadow-and-forget", "substructural", func(p *Program, r *rand.Rand, ss []site) string {
+		// rename a binder to a live outer name AND delete that outer name's consumer in the
+		// scope of the binder: the outer channel is silently discarded if the binder may shadow
+		type cand struct {
+			s    *site
+			br   int
+			cons *Term
+		}
+		var cs []cand
+		for i := range ss {
+			t := ss[i].t
+			find := func(body *Term, binders ...string) *Term {
+				var hit *Term
+				Walk(body, func(x *Term) {
+					if hit == nil && (x.Op == "wait" || x.Op == "drop") && !IsSelf(x.X) {
+						for _, b := range binders {
+							if Base(b) == Base(x.X) {
+								return
+							}
+						}
+						// must be free at t: not bound between t and x -> approximate with FreeVars
+						for _, v := range FreeVars(body) {
+							if v == Base(x.X) {
+								hit = x
+							}
+						}
+					}
+				})
+				return hit
+			}
+			switch t.Op {
+			case "recv", "split":
+				if c := find(t.Cont, t.Y, t.Z); c != nil {
+					cs = append(cs, cand{&ss[i], -1, c})
+				}
+			case "shift", "new":
+				if c := find(t.Cont, t.Y); c != nil {
+					cs = append(cs, cand{&ss[i], -1, c})
+				}
+			case "case":
+				for j, b := range t.Brs {
+					if c := find(b.Body, b.Var); c != nil {
+						cs = append(cs, cand{&ss[i], j, c})
+					}
+				}
+			}
+		}
+		if len(cs) == 0 {
+			return ""
+		}
+		c := cs[r.Intn(len(cs))]
+		t := c.s.t
+		z := Base(c.cons.X)
+		replace(c.cons, c.cons.Cont)
+		switch {
+		case c.br >= 0:
+			b := &t.Brs[c.br]
+			old := Base(b.Var)
+			renameFree(b.Body, old, z)
+			b.Var = z
+		case t.Op == "recv" || t.Op == "split":
+			old := Base(t.Y)
+			renameFree(t.Cont, old, z)
+			t.Y = z
+		default:
+			old := Base(t.Y)
+			renameFree(t.Cont, old, z)
+			t.Y = z
+		}
+		return fmt.Sprintf("%s binder renamed to %s whose own consumer was deleted in %s", t.Op, z, c.s.where)
+	}},
+	{"binders-equal-forget", "substructural", func(p *Program, r *rand.Rand, ss []site) string {
+		// <y,y> <- recv x with the consumer of the second component deleted
+		var cs []*site
+		var cons []*Term
+		for i := range ss {
+			t := ss[i].t
+			if (t.Op == "recv" || t.Op == "split") && !IsSelf(t.X) {
+				var hit *Term
+				Walk(t.Cont, func(x *Term) {
+					if hit == nil && (x.Op == "wait" || x.Op == "drop") && Base(x.X) == Base(t.Z) {
+						hit = x
+					}
+				})
+				if hit != nil {
+					cs = append(cs, &ss[i])
+					cons = append(cons, hit)
+				}
+			}
+		}
+		if len(cs) == 0 {
+			return ""
+		}
+		k := r.Intn(len(cs))
+		replace(cons[k], cons[k].Cont)
+		cs[k].t.Z = cs[k].t.Y
+		return fmt.Sprintf("%s binds one name twice and the second component is never used in %s", cs[k].t.Op, cs[k].where)
+	}},
 	{"multi-name", "substructural", func(p *Program, r *rand.Rand, ss []site) string {
 		var c []*Proc
 		for _, pr := range p.Procs {
